@@ -50,6 +50,7 @@ fn main() {
             let stack_kb: usize = args.get(4).and_then(|s| s.parse().ok()).unwrap_or(8192);
             let f: fn(&[u8]) -> String = match args[2].as_str() {
                 "c11_decode" => checks::c11::child_decode,
+                "c10_compile" => checks::c10::child_compile,
                 _ => usage(),
             };
             runner::child_main(&args[3], stack_kb, f);
